@@ -1038,6 +1038,58 @@ func c06NilMapWrite(c *Ctx) {
 					}
 				}
 			})
+			// … or a helper method of the record, called before the use, allocates the member (ensureMaps())
+			if !stored {
+				ir.EachInstr(fn, func(_ *ssa.BasicBlock, _ int, in ssa.Instruction) {
+					cl, ok := in.(*ssa.Call)
+					if !ok || stored || !flow.Dominates(cl, at) {
+						return
+					}
+					sc := ir.StaticCallee(cl)
+					if sc == nil || !c.P.IsLib(sc) || sc.Blocks == nil {
+						return
+					}
+					for ai, a := range cl.Call.Args {
+						if rootOf(a) != al || ai >= len(sc.Params) {
+							continue
+						}
+						p := sc.Params[ai]
+						ir.EachInstr(sc, func(_ *ssa.BasicBlock, _ int, hin ssa.Instruction) {
+							hs, ok := hin.(*ssa.Store)
+							if !ok {
+								return
+							}
+							hfa, ok := hs.Addr.(*ssa.FieldAddr)
+							if !ok || rootOf(hfa.X) != ssa.Value(p) {
+								return
+							}
+							if hfr, _, _ := ir.FieldOf(hfa); hfr.Name != fr.Name {
+								return
+							}
+							if k, isConst := hs.Val.(*ssa.Const); isConst && k.IsNil() {
+								return
+							}
+							if hs.Block() == sc.Blocks[0] {
+								stored = true
+								return
+							}
+							// `if p.m == nil { p.m = make(…) }` with nothing else deciding
+							gs := flow.Guards(sc, hs.Block())
+							if len(gs) == 1 {
+								if gv, op, ok := nilCompare(gs[0].If.Cond); ok && (op == token.EQL) == gs[0].Branch {
+									if gl, ok := gv.(*ssa.UnOp); ok {
+										if gfa, ok := gl.X.(*ssa.FieldAddr); ok && rootOf(gfa.X) == ssa.Value(p) {
+											if gfr, _, _ := ir.FieldOf(gfa); gfr.Name == fr.Name {
+												stored = true
+											}
+										}
+									}
+								}
+							}
+						})
+					}
+				})
+			}
 			if !stored {
 				return sprintf("the member %s of a local value, which is assigned only on some paths (it stays nil when the peer leaves the member out)", fr.Name)
 			}
